@@ -465,7 +465,11 @@ def explore(rng, tier, replay=None):
                                                   "mov_ArArpSttMod_MemR7Imm16", "push_ArArpSttMod", "pop_ArArpSttMod",
                                                   "alb_Alb_Imm16_SttMod", "tstb_SttMod", "mov_Register_Register",
                                                   "mov_Imm16_Register", "push_Register", "pop_Register", "load_", "mov2",
-                                                  "mova"], 1 if tier == "quick" else 6)
+                                                  "mova",
+                                                  # every instruction that addresses through an ar/arp word (register, step and
+                                                  # offset selected by the word): the interpreter must use the same fields the
+                                                  # layout and the disassembler name
+                                                  r"~_(ArRn[12]|ArpRn[12])(_|$)"], 1 if tier == "quick" else 6)
         ctx["violations"] = ctx.get("violations", []) + iv
         ctx["instruction_slice"] = istats
         ctx["evaluations"] = ctx.get("evaluations", 0) + istats["instruction_cases"]
